@@ -1,8 +1,9 @@
 #!/usr/bin/env python3
 """Builds /verif/seeded/RESULTS.md from an evaluation log produced by bin/mutant-eval runs (see /root/rf/matrix.sh)
-and the reverse-fix log. Usage: tools_results.py <matrix.log> [<reverse-fix.log>]"""
+and the reverse-fix log. Usage: tools_results.py <eval logs in chronological order...> [<...reverse.log>]"""
 import sys, re, json, os
-log = open(sys.argv[1]).read()
+logs = [a for a in sys.argv[1:] if not a.endswith('reverse.log')]
+log = ''.join(open(a).read() for a in logs)
 rows = []
 for blk in log.split('=== ')[1:]:
     head = blk.split('\n', 1)[0]
@@ -15,7 +16,9 @@ for blk in log.split('=== ')[1:]:
         mm = re.search(r'^%s rc=(\d+) (\d+)s violations=(\d+)' % c, blk, re.M)
         if mm: per[c] = (int(mm.group(1)), int(mm.group(2)), int(mm.group(3)))
     caught = re.search(r'CAUGHT BY:(.*)', blk)
+    rows = [r for r in rows if r[0] != seed]  # a later evaluation of the same change replaces the earlier one
     rows.append((seed, suite, per, caught.group(1).strip() if caught else '?'))
+rows.sort()
 out = ["# Seeded property-breaking changes and which checks report them", "",
        "Every change below was written by an independent sub-agent that saw only the property text and a scratch worktree of the",
        "repository; each was confirmed in a scratch worktree (`bin/seed-verify`: the repository's suite passes with the change, the agent's",
@@ -36,10 +39,11 @@ for seed, suite, per, caught in rows:
         meta = json.load(open(d + '/meta.json')); meta['detected_by'] = caught; meta['checks_run'] = {c: {'exit': v[0], 'violation_lines': v[2], 'seconds': v[1]} for c, v in per.items()}
         json.dump(meta, open(d + '/meta.json', 'w'), indent=1)
     except Exception: pass
-if len(sys.argv) > 2 and os.path.exists(sys.argv[2]):
+rev = [a for a in sys.argv[1:] if a.endswith('reverse.log')]
+if rev and os.path.exists(rev[0]):
     out += ["", "## Repairs reverse-applied", "", "Each `fix:` commit of /repo reverse-applied to the working tree (the suite passes by construction): the owning check must alarm.", "",
             "| commit | property | subject | reported by |", "|---|---|---|---|"]
-    rf = open(sys.argv[2]).read()
+    rf = open(rev[0]).read()
     for blk in rf.split('=== revert ')[1:]:
         h = blk.split(' ', 1)[0]
         mm = re.match(r'(\S+) \(property (\S+)\): (.*)', blk.split('\n', 1)[0])
